@@ -5,6 +5,7 @@ lldxf/types.py, xref.py and entities/blockrecord.py on every run (Gen/XrefTables
 `private theorem` = helper lemma; every `theorem` is a counted obligation.
 -/
 import EzdxfVerif.Model.Xref
+import EzdxfVerif.Lemmas.XrefOv
 
 namespace EzdxfVerif.Props.C17
 open EzdxfVerif.Xref EzdxfVerif.Gen
@@ -976,6 +977,36 @@ private theorem transfer_closed_g (discards : Bool) (d : Docs) (σ : Sigma) (reg
       simp only [Sigma.range, List.mem_map]
       exact ⟨(q, t), ht, rfl⟩
 
+/-- the redirected handle mapping itself is closed: every value of `σ'` is null or the handle of a node that is in the target
+    after the transfer (an existing entry a KEEP decision redirected to, or a live copy) -/
+private theorem transfer_sigma_closed_g (discards : Bool) (d : Docs) (σ : Sigma) (regs : List (Nat × Reg)) (placed : List Nat)
+    (d' : Docs) (σ' : Sigma)
+    (hwf : WF d σ) (hregs : RegsOk d regs) (h : transfer true discards d σ regs placed = .ok (d', σ')) :
+    ∀ e ∈ σ', e.2 = 0 ∨ e.2 ∈ d'.tgt.handles := by
+  obtain ⟨d2, dead, repl, hp, hσ, hd⟩ := transfer_ok true discards d σ regs placed d' σ' h
+  obtain ⟨a1, a2, a3, a4, _, _⟩ := registerPhase_inv true discards σ regs _ _ _ _ _ _ hp
+  intro e he
+  subst hd
+  obtain ⟨q, p⟩ := e
+  simp only
+  rw [hσ] at he
+  obtain ⟨t, ht, hcase⟩ := redirect_mem σ repl dead q p he
+  rcases hcase with ⟨r, hr1, _, hr3⟩ | ⟨_, hv⟩ | ⟨hnd, hv⟩
+  · right
+    have hold : r.2 ∈ d.tgt.handles := by
+      rcases a4 r hr1 with c | ⟨⟨x, hx, hk⟩, _⟩
+      · simp at c
+      · exact hregs x hx r.2 hk
+    rw [hr3]
+    exact mem_final d σ hwf d2 _ _ _ a2 r.2 (Or.inl hold)
+      (purgeList_sub dead repl placed _ (old_not_dead d σ hwf dead a3 r.2 hold))
+  · left; exact hv
+  · right
+    rw [hv]
+    refine mem_final d σ hwf d2 _ _ _ a2 t (Or.inr ?_) (purgeList_sub dead repl placed _ hnd)
+    simp only [Sigma.range, List.mem_map]
+    exact ⟨(q, t), ht, rfl⟩
+
 /-- no handle of the source document leaks: when the source handles are disjoint from the target's old handles
     and from the handles handed out for the copies, no pointer field of a transferred node is a source handle -/
 private theorem transfer_no_leak_g (discards : Bool) (d : Docs) (σ : Sigma) (regs : List (Nat × Reg)) (placed : List Nat)
@@ -1264,6 +1295,178 @@ theorem block_record_restore (guards discards : Bool) (d : Docs) (σ : Sigma) (d
       rw [if_pos this] at hm
       rw [← hm]
 
+/-! ### the restored block record through the WHOLE transfer (session 3) -/
+
+private theorem find_of_mem_handles (db : Db) (h : Nat) (hm : h ∈ db.handles) : ∃ n, db.find h = some n := by
+  simp only [Db.handles, List.mem_map] at hm
+  obtain ⟨m, hm1, hm2⟩ := hm
+  cases hf : db.find h with
+  | some n => exact ⟨n, rfl⟩
+  | none =>
+    simp only [Db.find, List.find?_eq_none] at hf
+    exact absurd (by simpa using hm2) (hf m hm1)
+
+private theorem registerPhase_append (guards discards : Bool) (σ : Sigma) :
+    ∀ (pre post : List (Nat × Reg)) (d : Docs) (dead : List Nat) (repl : Sigma),
+      registerPhase guards discards d σ dead repl (pre ++ post) =
+        match registerPhase guards discards d σ dead repl pre with
+        | .error x => .error x
+        | .ok (d1, dead1, repl1) => registerPhase guards discards d1 σ dead1 repl1 post := by
+  intro pre
+  induction pre with
+  | nil => intro post d dead repl; rfl
+  | cons x rest ih =>
+    intro post d dead repl
+    obtain ⟨s, r⟩ := x
+    simp only [List.cons_append, registerPhase]
+    cases registerOne guards discards d σ dead repl s r with
+    | error x => rfl
+    | ok v =>
+      obtain ⟨d1, dead1, repl1⟩ := v
+      exact ih post d1 dead1 repl1
+
+/-- one registration step for ANOTHER source handle keeps the links of the restored copy of `s` -/
+private theorem registerOne_keeps_restored (guards discards : Bool) (d : Docs) (σ : Sigma) (dead : List Nat) (repl : Sigma)
+    (s' : Nat) (r : Reg) (d' : Docs) (dead' : List Nat) (repl' : Sigma)
+    (h : registerOne guards discards d σ dead repl s' r = .ok (d', dead', repl'))
+    (s : Nat) (sn : Node) (b e : Nat) (hR : Restored d.tgt σ s sn b e) (hne : σ.get s' ≠ σ.get s)
+    (hdis : ∀ sn' b' e', d.src.find s' = some sn' → sn'.block = some b' → sn'.endblk = some e' →
+      ∀ x ∈ ownedCopies σ sn' b' e', x ∉ ownedCopies σ sn b e) :
+    Restored d'.tgt σ s sn b e := by
+  unfold registerOne at h
+  split at h
+  · rename_i sn' cn hs hc
+    cases r with
+    | keepExisting e0 =>
+      simp only at h
+      split at h
+      · cases h
+      · simp only [Except.ok.injEq, Prod.mk.injEq] at h
+        rw [← h.1]; exact hR
+    | addNew =>
+      simp only at h
+      split at h
+      · split at h
+        · rename_i b' e' hb' he'
+          split at h
+          · cases h
+          · simp only [Except.ok.injEq, Prod.mk.injEq] at h
+            rw [← h.1]
+            intro n hn
+            simp only [List.mem_map] at hn
+            obtain ⟨m, hm, hmn⟩ := hn
+            have hRm := hR m hm
+            by_cases c1 : m.handle = σ.get s'
+            · rw [if_pos c1] at hmn
+              subst hmn
+              refine ⟨fun hh => absurd (c1.symm.trans hh) hne, fun _ hin => ?_⟩
+              exact hRm.2 (fun c => hne (c1.symm.trans c)) hin
+            · rw [if_neg c1] at hmn
+              split at hmn
+              · rename_i c2
+                subst hmn
+                refine ⟨fun hh => hRm.1 hh, fun _ hin => ?_⟩
+                exfalso
+                have : m.handle ∈ ownedCopies σ sn' b' e' := by
+                  simpa [ownedCopies] using c2
+                exact hdis sn' b' e' hs hb' he' m.handle this hin
+              · subst hmn; exact hRm
+        · cases h
+      · simp only [Except.ok.injEq, Prod.mk.injEq] at h
+        rw [← h.1]; exact hR
+  · simp only [Except.ok.injEq, Prod.mk.injEq] at h
+    rw [← h.1]; exact hR
+
+private theorem registerPhase_keeps_restored (guards discards : Bool) (σ : Sigma) (src : Db) (s : Nat) (sn : Node) (b e : Nat) :
+    ∀ (regs : List (Nat × Reg)) (d : Docs) (dead : List Nat) (repl : Sigma) (d' : Docs) (dead' : List Nat) (repl' : Sigma),
+      registerPhase guards discards d σ dead repl regs = .ok (d', dead', repl') → d.src = src →
+      Restored d.tgt σ s sn b e → (∀ x ∈ regs, σ.get x.1 ≠ σ.get s) →
+      (∀ x ∈ regs, ∀ sn' b' e', src.find x.1 = some sn' → sn'.block = some b' → sn'.endblk = some e' →
+        ∀ y ∈ ownedCopies σ sn' b' e', y ∉ ownedCopies σ sn b e) →
+      Restored d'.tgt σ s sn b e := by
+  intro regs
+  induction regs with
+  | nil =>
+    intro d dead repl d' dead' repl' h _ hR _ _
+    simp only [registerPhase, Except.ok.injEq, Prod.mk.injEq] at h
+    rw [← h.1]; exact hR
+  | cons x rest ih =>
+    intro d dead repl d' dead' repl' h hsrc hR hne hdis
+    obtain ⟨s', r⟩ := x
+    simp only [registerPhase] at h
+    split at h
+    · cases h
+    · rename_i d1 dead1 repl1 h1
+      have hinv := registerOne_inv guards discards d σ dead repl s' r d1 dead1 repl1 h1
+      refine ih d1 dead1 repl1 d' dead' repl' h (hinv.1.trans hsrc) ?_ (fun y hy => hne y (List.mem_cons_of_mem _ hy))
+        (fun y hy => hdis y (List.mem_cons_of_mem _ hy))
+      exact registerOne_keeps_restored guards discards d σ dead repl s' r d1 dead1 repl1 h1 s sn b e hR
+        (hne (s', r) (List.mem_cons_self ..)) (fun sn' b' e' hf => hdis (s', r) (List.mem_cons_self ..) sn' b' e' (hsrc ▸ hf))
+
+/-- `block_record_restore` carried through the WHOLE transfer (induction over the registration list, then the map phase and the
+    purge): when the copied block record `s` is added (it occurs once in the registration list, with `addNew`), then in the
+    document the transfer returns its copy refers to the copies of BLOCK, ENDBLK and of every copied content entity, in source
+    order, and every surviving one of those copies is owned by it — whatever is registered before and after, provided no other
+    registered block record claims one of the same copies (each source entity belongs to one block) -/
+private theorem block_record_restore_transfer_g (discards : Bool) (d : Docs) (σ : Sigma) (pre post : List (Nat × Reg)) (placed : List Nat)
+    (d' : Docs) (σ' : Sigma) (s b e : Nat) (sn : Node)
+    (hwf : WF d σ) (h : transfer true discards d σ (pre ++ (s, .addNew) :: post) placed = .ok (d', σ'))
+    (hs : d.src.find s = some sn) (hk : sn.kind = .blockRecord) (hb : sn.block = some b) (he : sn.endblk = some e)
+    (hreg : s ∈ σ.map (·.1)) (hbn : σ.get b ≠ 0) (hen : σ.get e ≠ 0)
+    (hne : ∀ x ∈ pre ++ post, σ.get x.1 ≠ σ.get s)
+    (hdis : ∀ x ∈ pre ++ post, ∀ sn' b' e', d.src.find x.1 = some sn' → sn'.block = some b' → sn'.endblk = some e' →
+      ∀ y ∈ ownedCopies σ sn' b' e', y ∉ ownedCopies σ sn b e) :
+    Restored d'.tgt σ s sn b e := by
+  obtain ⟨d2, dead, repl, hp, _, hd⟩ := transfer_ok true discards d σ _ placed d' σ' h
+  rw [registerPhase_append] at hp
+  split at hp
+  · cases hp
+  · rename_i d1 dead1 repl1 hpre
+    obtain ⟨p1, p2, _⟩ := registerPhase_inv true discards σ pre _ _ _ _ _ _ hpre
+    simp only [registerPhase] at hp
+    split at hp
+    · cases hp
+    · rename_i d1' dead1' repl1' hone
+      have hsrc1 : d1.src = d.src := p1
+      -- the copy of `s` is in the target after the copy phase and after `pre`
+      obtain ⟨es, hes, hes1⟩ := get_of_key σ s hreg
+      have hmem : σ.get s ∈ d1.tgt.handles := by
+        rw [p2, copyPhase_handles d σ hwf.keys_in_src]
+        apply List.mem_append_right
+        simp only [Sigma.range, List.mem_map]
+        exact ⟨es, hes, hes1.2.symm⟩
+      obtain ⟨cn, hcn⟩ := find_of_mem_handles d1.tgt (σ.get s) hmem
+      obtain ⟨dr, hdr, hdsrc, hrest⟩ := block_record_restore true discards d1 σ dead1 repl1 s b e sn cn
+        (hsrc1 ▸ hs) hcn hk hb he hbn hen
+      rw [hdr] at hone
+      simp only [Except.ok.injEq, Prod.mk.injEq] at hone
+      obtain ⟨e1, e2, e3⟩ := hone
+      subst e1 e2 e3
+      have hR1 : Restored dr.tgt σ s sn b e := by
+        intro n hn
+        obtain ⟨q1, q2⟩ := hrest n hn
+        refine ⟨q1, fun hn1 hin => q2 hn1 ?_⟩
+        simp only [ownedCopies, List.mem_cons] at hin
+        exact hin
+      have hR2 := registerPhase_keeps_restored true discards σ d.src s sn b e post dr dead1 repl1 d2 dead repl hp
+        (hdsrc.trans hsrc1) hR1 (fun x hx => hne x (List.mem_append_right _ hx))
+        (fun x hx => hdis x (List.mem_append_right _ hx))
+      subst hd
+      intro n hn
+      simp only [purge, mapPhase, List.mem_filter, List.mem_map] at hn
+      obtain ⟨⟨m, hm, hmn⟩, _⟩ := hn
+      have hm2 := hR2 m hm
+      have hsame : n.handle = m.handle ∧ n.block = m.block ∧ n.endblk = m.endblk ∧ n.content = m.content ∧ n.owner = m.owner := by
+        rw [← hmn]
+        split
+        · split
+          · exact ⟨rfl, rfl, rfl, rfl, rfl⟩
+          · split <;> exact ⟨rfl, rfl, rfl, rfl, rfl⟩
+        · exact ⟨rfl, rfl, rfl, rfl, rfl⟩
+      obtain ⟨k1, k2, k3, k4, k5⟩ := hsame
+      rw [k1, k2, k3, k4, k5]
+      exact hm2
+
 /-! ### the reproduced defects as theorems about the model of the code as found -/
 
 /-- F14 input: source block record 10 (BLOCK 11, LINE 12, ENDBLK 13) + INSERT 14 in the modelspace (block record 1),
@@ -1370,5 +1573,477 @@ example : RegsOk f14 [(10, .keepExisting 5)] := by
 /-- the hypotheses of `transfer_closed` are satisfiable: the F14 input with the guard -/
 example : ∀ n ∈ ((transfer true true f14 f14σ [(10, .keepExisting 5)]).toOption.map (·.1.tgt)).getD [],
     n.handle ∈ f14σ.range → ∀ p ∈ n.ptrs, p = 0 ∨ p ∈ [1, 5, 24] := by decide
+
+
+/-! ## §4b the conflict policies refine one abstract specification, for every kind of name container (session 3) -/
+
+/-- `add_table_entry` (STYLE, DIMSTYLE, UCS, non-anonymous BLOCK_RECORD; LAYER / LTYPE behind their front ends) refines the spec -/
+theorem table_policy_refines_spec (pol : Policy) (xref : Str) (t : Table) (name : Str) :
+    PolicySpec pol xref t.keys name (addTableEntry pol xref t name) := by
+  cases pol with
+  | keep =>
+    refine ⟨fun h => ?_, fun h => ?_⟩
+    · obtain ⟨x, hx, _⟩ := (policy_keep xref t name).1 ((has_iff t name).2 h)
+      exact ⟨x, hx⟩
+    · exact (policy_keep xref t name).2 ((has_false_iff t name).2 h)
+  | xrefPrefix =>
+    obtain ⟨i, _, he, hf, hl⟩ := policy_xref_prefix xref t name
+    exact ⟨i, he, (has_false_iff t _).1 hf, fun j hj => (has_iff t _).1 (hl j hj)⟩
+  | numPrefix =>
+    refine ⟨fun h => (policy_num_prefix xref t name).1 ((has_false_iff t name).2 h), fun h => ?_⟩
+    obtain ⟨i, _, he, hf, hl⟩ := (policy_num_prefix xref t name).2 ((has_iff t name).2 h)
+    exact ⟨i, he, (has_false_iff t _).1 hf, fun j hj => (has_iff t _).1 (hl j hj)⟩
+
+/-- LAYER front end: a layer that is not special and whose new name passes the layer-name validator follows the spec -/
+theorem layer_policy_refines_spec (pol : Policy) (xref : Str) (t : Table) (name : Str)
+    (hns : (XrefTables.specialLayers.contains (upper name) || isAdskSpecial (upper name)) = false)
+    (hok : addLayerEntry pol xref t name ≠ .error) :
+    PolicySpec pol xref t.keys name (addLayerEntry pol xref t name) := by
+  have hspec := table_policy_refines_spec pol xref t name
+  have hl : addLayerEntry pol xref t name = checkedLayer name (addTableEntry pol xref t name) := by
+    unfold addLayerEntry addLayerEntryWith
+    simp only [hns, Bool.false_eq_true, ↓reduceIte]
+  rw [hl] at hok ⊢
+  cases hd : addTableEntry pol xref t name with
+  | useExisting h => rw [hd] at hspec; exact hspec
+  | error => rw [hd] at hspec; exact hspec
+  | add n =>
+    rw [hd] at hok hspec
+    simp only [checkedLayer] at hok ⊢
+    by_cases hc : (decide (n = name) || validLayerName n) = true
+    · rw [if_pos hc]; exact hspec
+    · rw [if_neg hc] at hok; exact absurd rfl hok
+
+/-- LTYPE front end: a linetype that is not one of the default linetypes follows the spec -/
+theorem linetype_policy_refines_spec (pol : Policy) (xref : Str) (t : Table) (name : Str)
+    (hnd : XrefTables.defaultLinetypes.contains (upper name) = false) :
+    PolicySpec pol xref t.keys name (addLinetypeEntry pol xref t name) := by
+  unfold addLinetypeEntry
+  simp only [hnd, Bool.false_eq_true, ↓reduceIte]
+  exact table_policy_refines_spec pol xref t name
+
+/-- BLOCK_RECORD front end: a block whose name is not anonymous (`*X…`) follows the spec -/
+theorem block_policy_refines_spec (pol : Policy) (xref : Str) (t : Table) (anon : Nat → Str) (name : Str)
+    (hna : ∀ c r, upper name ≠ 42 :: c :: r) :
+    PolicySpec pol xref t.keys name (addBlockRecordEntry pol xref t anon name) := by
+  unfold addBlockRecordEntry
+  -- the equation of the default branch of the `match` has the side condition "not of the form 42 :: c :: r": discharged by `hna`
+  simp only
+  exact table_policy_refines_spec pol xref t name
+
+private theorem coll_get_some_of_mem (c : Coll) (n : Str) (h : lower n ∈ c.lkeys) : ∃ x, c.get? n = some x := by
+  simp only [Coll.lkeys, List.mem_map] at h
+  obtain ⟨e, he, hel⟩ := h
+  cases hg : c.get? n with
+  | some x => exact ⟨x, rfl⟩
+  | none =>
+    simp only [Coll.get?, Option.map_eq_none_iff, List.find?_eq_none] at hg
+    exact absurd (by simpa using hel) (hg e he)
+
+/-- MATERIAL / MLINESTYLE / MLEADERSTYLE collections: an entry that is not a system entry follows the same spec over the
+    case-folded keys of the collection -/
+theorem collection_policy_refines_spec (pol : Policy) (xref : Str) (c : Coll) (system : List Str) (name : Str)
+    (hns : system.contains (upper name) = false) :
+    PolicySpec pol xref c.lkeys name (addCollectionEntry pol xref c system name) := by
+  unfold addCollectionEntry
+  simp only [hns, Bool.false_eq_true, ↓reduceIte]
+  cases pol with
+  | keep =>
+    refine ⟨fun h => ?_, fun h => ?_⟩
+    · obtain ⟨x, hx⟩ := coll_get_some_of_mem c name h
+      exact ⟨x, by simp [hx]⟩
+    · simp [coll_get_none_of_not_mem c name h]
+  | xrefPrefix =>
+    obtain ⟨hf, i, _, he, hl⟩ := unique_name_fresh name xref c.lkeys
+    exact ⟨i, by simp [he], he ▸ hf, hl⟩
+  | numPrefix =>
+    refine ⟨fun h => by simp [coll_get_none_of_not_mem c name h], fun h => ?_⟩
+    obtain ⟨x, hx⟩ := coll_get_some_of_mem c name h
+    obtain ⟨hf, i, _, he, hl⟩ := unique_name_fresh name [] c.lkeys
+    exact ⟨i, by simp [hx, he], he ▸ hf, hl⟩
+
+/-- the loop of `register_table_resources` over ANY number of copied entries refines a run of the specification: each decision
+    meets the spec against the keys as left by the decisions before it -/
+theorem register_all_refines_spec (spec : List Str → Str → Decision → Prop) (dec : Table → Str → Decision)
+    (hdec : ∀ t name, spec t.keys name (dec t name)) (t : Table) (es : List (Str × Nat)) :
+    SpecRun spec t.keys es (registerAll dec t es).1 := by
+  induction es generalizing t with
+  | nil => simp [registerAll, SpecRun]
+  | cons e rest ih =>
+    obtain ⟨name, h⟩ := e
+    unfold registerAll
+    have hd := hdec t name
+    cases hdd : dec t name with
+    | add n =>
+      simp only
+      rw [hdd] at hd
+      refine ⟨hd, ?_⟩
+      have := ih (t ++ [(lower n, h)])
+      simpa [Table.keys] using this
+    | useExisting x =>
+      simp only
+      rw [hdd] at hd
+      exact ⟨hd, ih t⟩
+    | error =>
+      simp only
+      rw [hdd] at hd
+      exact ⟨hd, ih t⟩
+
+/-- every name the transfer hands out exists afterwards: the key of each added (possibly renamed) entry is in the final container,
+    so the name map never points to a missing entry -/
+theorem registered_names_resolve (dec : Table → Str → Decision)
+    (hdec : ∀ t name n, dec t name = .add n → t.has n = false) (t : Table) (es : List (Str × Nat)) (hnd : t.keys.Nodup) :
+    ∀ n, Decision.add n ∈ (registerAll dec t es).1 → lower n ∈ (registerAll dec t es).2.keys := by
+  induction es generalizing t with
+  | nil => intro n hn; simp [registerAll] at hn
+  | cons e rest ih =>
+    obtain ⟨name, h⟩ := e
+    intro n hn
+    unfold registerAll at hn ⊢
+    cases hd : dec t name with
+    | add m =>
+      simp only [hd] at hn ⊢
+      have hfree := hdec t name m hd
+      rw [has_false_iff] at hfree
+      have hnd' : (t ++ [(lower m, h)]).keys.Nodup := by
+        simp only [Table.keys, List.map_append, List.map_cons, List.map_nil]
+        rw [List.nodup_append]
+        refine ⟨hnd, by simp, ?_⟩
+        intro a ha b hb
+        simp only [List.mem_singleton] at hb
+        subst hb
+        intro e; subst e
+        exact hfree ha
+      rcases List.mem_cons.mp hn with c | c
+      · cases c
+        obtain ⟨_, hpre, _⟩ := register_all_unique dec hdec (t ++ [(lower n, h)]) rest hnd'
+        obtain ⟨suffix, hsuf⟩ := hpre
+        rw [← hsuf]
+        simp [Table.keys]
+      · exact ih (t ++ [(lower m, h)]) hnd' n c
+    | useExisting x =>
+      simp only [hd] at hn ⊢
+      rcases List.mem_cons.mp hn with c | c
+      · cases c
+      · exact ih t hnd n c
+    | error =>
+      simp only [hd] at hn ⊢
+      rcases List.mem_cons.mp hn with c | c
+      · cases c
+      · exact ih t hnd n c
+
+-- the hypotheses of the front-end theorems are satisfiable: "L1" is not a special layer, "DASHX" no default linetype, "B" no anonymous
+-- block, "M1" no system material; the policy on each is a decision other than `error`
+#guard (XrefTables.specialLayers.contains (upper [76, 49]) || isAdskSpecial (upper [76, 49])) = false
+#guard addLayerEntry .xrefPrefix [120] [([108, 49], 7)] [76, 49] != .error
+#guard XrefTables.defaultLinetypes.contains (upper [68, 65, 83, 72, 88]) = false
+#guard XrefTables.materialSystemEntries.contains (upper [77, 49]) = false
+example : ∀ c r, upper [66] ≠ 42 :: c :: r := by intro c r h; cases h
+example : ∀ t name n, addTableEntry .numPrefix [] t name = .add n → t.has n = false := add_never_clashes .numPrefix []
+-- the spec is not vacuous: the decisions of the three policies on a clashing name, case-insensitively ("L1" vs key "l1")
+example : PolicySpec .keep [120] [[108, 49]] [76, 49] (.useExisting 7) := ⟨fun _ => ⟨7, rfl⟩, fun h => absurd (by decide) h⟩
+example : PolicySpec .numPrefix [] [[108, 49]] [76, 49] (addTableEntry .numPrefix [] [([108, 49], 7)] [76, 49]) :=
+  table_policy_refines_spec .numPrefix [] [([108, 49], 7)] [76, 49]
+#guard (registerAll (addTableEntry .numPrefix []) [([97], 1)] [([65], 10), ([36, 48, 36, 65], 11)]).1
+  == [.add [36, 48, 36, 65], .add [36, 48, 36, 36, 48, 36, 65]]   -- "A" -> "$0$A", the source's own "$0$A" -> "$0$$0$A"
+
+/-! ## §5b the restored block record through the whole transfer (session 3) -/
+
+/-- `block_record_restore` carried through the WHOLE transfer of the code under test (induction over the registration list, then the
+    map phase and the purge): when the copied block record `s` is added (it occurs once in the registration list, with `addNew`),
+    then in the document the transfer returns its copy refers to the copies of BLOCK, ENDBLK and of every copied content entity,
+    in source order, and every surviving one of those copies is owned by it — whatever is registered before (`pre`) and after
+    (`post`), under every decision taken for the other entries, provided no other registered entry shares its copy (`hne`) or
+    claims one of the same content copies (`hdis`: each source entity belongs to one block) -/
+theorem block_record_restore_transfer (d : Docs) (σ : Sigma) (pre post : List (Nat × Reg)) (placed : List Nat)
+    (d' : Docs) (σ' : Sigma) (s b e : Nat) (sn : Node)
+    (hwf : WF d σ) (h : transferCurrent d σ (pre ++ (s, .addNew) :: post) placed = .ok (d', σ'))
+    (hs : d.src.find s = some sn) (hk : sn.kind = .blockRecord) (hb : sn.block = some b) (he : sn.endblk = some e)
+    (hreg : s ∈ σ.map (·.1)) (hbn : σ.get b ≠ 0) (hen : σ.get e ≠ 0)
+    (hne : ∀ x ∈ pre ++ post, σ.get x.1 ≠ σ.get s)
+    (hdis : ∀ x ∈ pre ++ post, ∀ sn' b' e', d.src.find x.1 = some sn' → sn'.block = some b' → sn'.endblk = some e' →
+      ∀ y ∈ ownedCopies σ sn' b' e', y ∉ ownedCopies σ sn b e) :
+    Restored d'.tgt σ s sn b e :=
+  block_record_restore_transfer_g true d σ pre post placed d' σ' s b e sn hwf (current_eq d σ _ placed ▸ h) hs hk hb he hreg hbn hen
+    hne hdis
+
+private theorem sigma_get_inj (σ : Sigma) (hnd : (σ.map (·.2)).Nodup) (q q' : Nat) (h : σ.get q = σ.get q') (h0 : σ.get q ≠ 0) :
+    q = q' := by
+  rcases get_cases σ q with c | c
+  · exact absurd c h0
+  · rcases get_cases σ q' with c' | c'
+    · exact absurd (h.trans c') h0
+    · have hinj : ∀ (l : Sigma), (l.map (·.2)).Nodup → ∀ x ∈ l, ∀ y ∈ l, x.2 = y.2 → x = y := by
+        intro l
+        induction l with
+        | nil => intro _ x hx; simp at hx
+        | cons a r ih =>
+          intro hn x hx y hy hxy
+          simp only [List.map_cons, List.nodup_cons, List.mem_map, not_exists, not_and] at hn
+          rcases List.mem_cons.mp hx with rfl | hx' <;> rcases List.mem_cons.mp hy with rfl | hy'
+          · rfl
+          · exact absurd hxy.symm (hn.1 y hy')
+          · exact absurd hxy (hn.1 x hx')
+          · exact ih hn.2 x hx' y hy' hxy
+      have := hinj σ hnd _ c _ c' (by simpa using h)
+      exact congrArg Prod.fst this
+
+private theorem mem_owned_parts (σ : Sigma) (sn : Node) (b e : Nat) (hb : sn.block = some b) (he : sn.endblk = some e) (y : Nat)
+    (hy : y ∈ ownedCopies σ sn b e) : ∃ q ∈ sn.parts, y = σ.get q := by
+  simp only [ownedCopies, List.mem_cons, List.mem_filter, List.mem_map] at hy
+  rcases hy with c | c | ⟨⟨q, hq, hqy⟩, _⟩
+  · exact ⟨b, by simp [Node.parts, hb], c⟩
+  · exact ⟨e, by simp [Node.parts, he], c⟩
+  · exact ⟨q, by simp [Node.parts, hq], hqy.symm⟩
+
+/-- the same with hypotheses about the SOURCE document only: `s` is registered once, and no other registered entry shares a BLOCK,
+    ENDBLK or content entity with it (each source entity belongs to one block); the facts about the copies follow from the
+    injectivity of CopyMachine's allocation (`WF`) -/
+theorem block_record_restore_transfer_src (d : Docs) (σ : Sigma) (pre post : List (Nat × Reg)) (placed : List Nat)
+    (d' : Docs) (σ' : Sigma) (s b e : Nat) (sn : Node)
+    (hwf : WF d σ) (h : transferCurrent d σ (pre ++ (s, .addNew) :: post) placed = .ok (d', σ'))
+    (hs : d.src.find s = some sn) (hk : sn.kind = .blockRecord) (hb : sn.block = some b) (he : sn.endblk = some e)
+    (hreg : s ∈ σ.map (·.1)) (hbn : σ.get b ≠ 0) (hen : σ.get e ≠ 0)
+    (honce : ∀ x ∈ pre ++ post, x.1 ≠ s)
+    (hpart : ∀ x ∈ pre ++ post, ∀ sn', d.src.find x.1 = some sn' → ∀ q ∈ sn'.parts, q ∉ sn.parts) :
+    Restored d'.tgt σ s sn b e := by
+  have hs0 : σ.get s ≠ 0 := by
+    obtain ⟨es, hes, _, hes2⟩ := get_of_key σ s hreg
+    rw [hes2]; exact hwf.vals_nonzero es hes
+  refine block_record_restore_transfer d σ pre post placed d' σ' s b e sn hwf h hs hk hb he hreg hbn hen ?_ ?_
+  · intro x hx hc
+    exact honce x hx (sigma_get_inj σ hwf.vals_nodup x.1 s hc (hc ▸ hs0))
+  · intro x hx sn' b' e' hf hb' he' y hy hy2
+    obtain ⟨q', hq', hyq'⟩ := mem_owned_parts σ sn' b' e' hb' he' y hy
+    obtain ⟨q, hq, hyq⟩ := mem_owned_parts σ sn b e hb he y hy2
+    have hy0 : y ≠ 0 := by
+      simp only [ownedCopies, List.mem_cons, List.mem_filter, List.mem_map] at hy2
+      rcases hy2 with c | c | ⟨_, c⟩
+      · rw [c]; exact hbn
+      · rw [c]; exact hen
+      · simpa using c
+    have : q' = q := sigma_get_inj σ hwf.vals_nodup q' q (hyq'.symm.trans hyq) (hyq' ▸ hy0)
+    exact hpart x hx sn' hf q' hq' (this ▸ hq)
+
+/-- two nested block definitions: block record 10 (BLOCK 11, LINE 12, ENDBLK 13), block record 20 (BLOCK 21, INSERT 22 of block 10,
+    CIRCLE 23, ENDBLK 24), INSERT 14 of block 20 in the modelspace 1; the target has its own block record 5 -/
+def twoBlocks : Docs :=
+  { src := [⟨1, .blockRecord, 0, [], some 2, some 3, [14]⟩, ⟨10, .blockRecord, 0, [], some 11, some 13, [12]⟩,
+            ⟨11, .block, 10, [], none, none, []⟩, ⟨12, .graphic, 10, [], none, none, []⟩, ⟨13, .endblk, 10, [], none, none, []⟩,
+            ⟨20, .blockRecord, 0, [], some 21, some 24, [22, 23]⟩, ⟨21, .block, 20, [], none, none, []⟩,
+            ⟨22, .graphic, 20, [10], none, none, []⟩, ⟨23, .graphic, 20, [], none, none, []⟩, ⟨24, .endblk, 20, [], none, none, []⟩,
+            ⟨14, .graphic, 1, [20], none, none, []⟩],
+    tgt := [⟨1, .blockRecord, 0, [], none, none, []⟩, ⟨5, .blockRecord, 0, [], none, none, []⟩] }
+def twoBlocksσ : Sigma :=
+  [(10, 110), (11, 111), (12, 112), (13, 113), (20, 120), (21, 121), (22, 122), (23, 123), (24, 124), (14, 114)]
+
+-- the hypotheses of `block_record_restore_transfer` are satisfiable and its conclusion is what the model computes: block record 20,
+-- registered AFTER block record 10 (first position) and BEFORE it (second position)
+example : WF twoBlocks twoBlocksσ := ⟨by decide, by decide, by decide, by decide, by decide, by decide⟩
+#guard ((transfer true true twoBlocks twoBlocksσ [(10, .addNew), (20, .addNew)]).toOption.map fun r =>
+    ((r.1.tgt.find 120).map fun n => (n.block, n.endblk, n.content), (r.1.tgt.filter fun n => n.owner = 120).map (·.handle),
+     (r.1.tgt.find 110).map fun n => (n.block, n.endblk, n.content), (r.1.tgt.filter fun n => n.owner = 110).map (·.handle)))
+  == some (some (some 121, some 124, [122, 123]), [121, 122, 123, 124], some (some 111, some 113, [112]), [111, 112, 113])
+#guard ((transfer true true twoBlocks twoBlocksσ [(20, .addNew), (10, .keepExisting 5)]).toOption.map fun r =>
+    ((r.1.tgt.find 120).map fun n => (n.block, n.endblk, n.content), (r.1.tgt.filter fun n => n.owner = 120).map (·.handle),
+     (r.1.tgt.find 122).map (·.ptrs), r.1.tgt.handles))
+  == some (some (some 121, some 124, [122, 123]), [121, 122, 123, 124], some [5], [1, 5, 120, 121, 122, 123, 124, 114])
+example : ∀ x ∈ ([(10, Reg.addNew)] : List (Nat × Reg)) ++ [], ∀ sn' b' e', twoBlocks.src.find x.1 = some sn' → sn'.block = some b' →
+    sn'.endblk = some e' → ∀ y ∈ ownedCopies twoBlocksσ sn' b' e',
+      y ∉ ownedCopies twoBlocksσ ⟨20, .blockRecord, 0, [], some 21, some 24, [22, 23]⟩ 21 24 := by
+  intro x hx sn' b' e' hf hb he y hy
+  simp only [List.append_nil, List.mem_singleton] at hx
+  subst hx
+  have : sn' = ⟨10, .blockRecord, 0, [], some 11, some 13, [12]⟩ := by
+    have : twoBlocks.src.find 10 = some ⟨10, .blockRecord, 0, [], some 11, some 13, [12]⟩ := by decide
+    rw [this] at hf; exact (Option.some.inj hf).symm
+  subst this
+  cases hb; cases he
+  revert y
+  decide
+
+/-! ## §6 the per-entity `register_resources` / `map_resources` overrides (session 3)
+
+`XrefOv.rows` is regenerated on every run from the AST of every override along the MRO of every entity type registered in
+`ezdxf.entities.factory` and from the attributes the live classes declare (Gen/XrefOverrides.lean). -/
+
+open EzdxfVerif.XrefOv in
+/-- EVERY registered entity type is well-formed: each declared handle attribute is closed by a statement of the `map_resources`
+    chain (or is a documented exception), each declared resource-name attribute is mapped through the name map of its kind, each
+    mapped name is registered, no `map_resources` assigns to the source entity, no chain maps other copies a second time.
+    Kernel-checked over the regenerated table (92 types); an attribute added to a class without a mapping statement, a dropped
+    registration, a write to `self`, a re-introduced `map_resources_of_copy` re-open this proof. -/
+theorem overrides_wf : XrefOv.rows.all Row.wf = true := by decide +kernel
+
+/-- the data objects that are mapped by delegation (MULTILEADER context, embedded MTEXT, R12 DIMSTYLE overrides) write to no source object -/
+theorem override_helpers_write_no_source : XrefOverrides.helpers.all (fun h => !h.2.2.2) = true := by decide +kernel
+
+private theorem row_wf_of_mem (r : XrefOv.Row) (h : r ∈ XrefOv.rows) : r.wf = true :=
+  List.all_eq_true.mp overrides_wf r h
+
+open EzdxfVerif.XrefOv in
+/-- FULL GENERALITY, any chain of guarded map statements: an attribute that is covered (a closing statement runs whenever the
+    source attribute is set, or an if/else on an undecided test closes it in both branches) ends up null, absent, a σ-image, or
+    the handle of a target object obtained through the mapping — for every handle map, every source entity, every outcome `orc`
+    of the tests the walker could not decide, whatever the other statements do and in whatever order they come -/
+theorem map_attrs_closed (orc : Nat → Bool) (σ : Sigma) (tobj : Nat → Nat) (evs : List MapEv) (src : Attrs) (a : Nat)
+    (ha : covered evs a = true) :
+    ∀ v, mapAttrs orc σ tobj evs src a = some v → v = 0 ∨ v ∈ σ.range ∨ ∃ b, v = tobj b :=
+  mapAttrsFrom_closed orc σ tobj src a evs src (fun _ _ hv => Or.inr hv) (Or.inl (covered_fires orc src evs a ha))
+
+open EzdxfVerif.XrefOv in
+/-- an attribute no statement touches keeps the SOURCE handle: that is why `overrides_wf` matters (non-vacuity of the exception list) -/
+theorem unhandled_attr_keeps_source_handle (orc : Nat → Bool) (σ : Sigma) (tobj : Nat → Nat) (evs : List MapEv) (src : Attrs) (a : Nat)
+    (h : ∀ e ∈ evs, e.attr ≠ a) : mapAttrs orc σ tobj evs src a = src a := by
+  unfold mapAttrs mapAttrsFrom
+  suffices ∀ cl : Attrs, List.foldl (fun c e => applyEv orc σ tobj src e c) cl evs a = cl a from this src
+  induction evs with
+  | nil => intro cl; rfl
+  | cons e es ih =>
+    intro cl
+    simp only [List.foldl_cons]
+    rw [ih (fun e' he' => h e' (List.mem_cons_of_mem _ he'))]
+    exact applyEv_other orc σ tobj src cl e a (fun c => h e (List.mem_cons_self ..) c.symm)
+
+open EzdxfVerif.XrefOv in
+/-- lifted to the table: for EVERY registered entity type that can be copied, every declared handle attribute that is not a
+    documented exception is closed after `map_resources`, for every handle map and every source entity of that type -/
+theorem registered_types_closed (r : Row) (hr : r ∈ XrefOv.rows) (hc : r.copyable = true)
+    (orc : Nat → Bool) (σ : Sigma) (tobj : Nat → Nat) (src : Attrs) (a : Nat) (ha : a ∈ r.ptrAttrs) (hx : a ∉ r.ptrExceptions) :
+    ∀ v, mapAttrs orc σ tobj r.maps src a = some v → v = 0 ∨ v ∈ σ.range ∨ ∃ b, v = tobj b := by
+  have hwf := row_wf_of_mem r hr
+  simp only [Row.wf, hc, Bool.not_true, Bool.false_or, Bool.and_eq_true] at hwf
+  have hp := hwf.1.1.1.1
+  simp only [Row.ptrsHandled, List.all_eq_true, Bool.or_eq_true, List.contains_iff_mem] at hp
+  rcases hp a ha with h | h
+  · exact map_attrs_closed orc σ tobj r.maps src a h
+  · exact absurd h hx
+
+/-- the handle mapping the map phase of the code under test consults is closed in the target after the transfer -/
+theorem transfer_sigma_closed (d : Docs) (σ : Sigma) (regs : List (Nat × Reg)) (placed : List Nat) (d' : Docs) (σ' : Sigma)
+    (hwf : WF d σ) (hregs : RegsOk d regs) (h : transferCurrent d σ regs placed = .ok (d', σ')) :
+    ∀ e ∈ σ', e.2 = 0 ∨ e.2 ∈ d'.tgt.handles :=
+  transfer_sigma_closed_g true d σ regs placed d' σ' hwf hregs (current_eq d σ regs placed ▸ h)
+
+open EzdxfVerif.XrefOv in
+/-- CLOSEDNESS PER CLASS, FOR EVERY REGISTERED ENTITY TYPE: take any transfer of the code under test (`transfer_closed`'s
+    hypotheses) and any source entity of a registered, copyable type.  After its `map_resources` chain has run with the redirected
+    mapping `σ'`, every declared handle attribute that is not a documented exception is null, absent, or the handle of a node
+    that IS in the target document (`tobj` = the target objects the `copyref` statements fetch through the mapping, themselves
+    in the target) -/
+theorem registered_types_transfer_closed (r : Row) (hr : r ∈ XrefOv.rows) (hc : r.copyable = true)
+    (d : Docs) (σ : Sigma) (regs : List (Nat × Reg)) (placed : List Nat) (d' : Docs) (σ' : Sigma)
+    (hwf : WF d σ) (hregs : RegsOk d regs) (h : transferCurrent d σ regs placed = .ok (d', σ'))
+    (orc : Nat → Bool) (tobj : Nat → Nat) (htobj : ∀ b, tobj b = 0 ∨ tobj b ∈ d'.tgt.handles)
+    (src : Attrs) (a : Nat) (ha : a ∈ r.ptrAttrs) (hx : a ∉ r.ptrExceptions) :
+    ∀ v, mapAttrs orc σ' tobj r.maps src a = some v → v = 0 ∨ v ∈ d'.tgt.handles := by
+  intro v hv
+  rcases registered_types_closed r hr hc orc σ' tobj src a ha hx v hv with c | c | ⟨b, c⟩
+  · exact Or.inl c
+  · simp only [Sigma.range, List.mem_map] at c
+    obtain ⟨e, he, hev⟩ := c
+    rw [← hev]
+    exact transfer_sigma_closed d σ regs placed d' σ' hwf hregs h e he
+  · rw [c]; exact htobj b
+
+open EzdxfVerif.XrefOv in
+/-- no registered, copyable entity type writes to its source entity in `map_resources`, and none maps other copies a second time
+    (the block content is reached once, through its own block of copies: fix 1a82fa447) -/
+theorem registered_types_write_no_source (r : Row) (hr : r ∈ XrefOv.rows) (hc : r.copyable = true) :
+    r.writesSource = false ∧ r.secondMapping = false := by
+  have hwf := row_wf_of_mem r hr
+  simp only [Row.wf, hc, Bool.not_true, Bool.false_or, Bool.and_eq_true, Bool.not_eq_true'] at hwf
+  exact ⟨hwf.1.2, hwf.2⟩
+
+open EzdxfVerif.XrefOv in
+/-- faithfulness of a handle attribute: when all statements for `a` are `get_handle` of the SOURCE value under guards that let them
+    run for a set attribute, the clone holds σ(h) — exactly what `mapPhase` of Model/Xref.lean §5 assumes for the pointer fields
+    (`ptrs := sn.ptrs.map σ.get`) -/
+theorem map_attrs_faithful (orc : Nat → Bool) (σ : Sigma) (tobj : Nat → Nat) (evs : List MapEv) (src : Attrs) (a h : Nat)
+    (hs : src a = some h) (h0 : h ≠ 0)
+    (hall : ∀ e ∈ evs, e.attr = a → e.via = .handle ∧ e.readsSource = true ∧ e.cond.firesOnSet = true) (hex : ∃ e ∈ evs, e.attr = a) :
+    mapAttrs orc σ tobj evs src a = some (σ.get h) :=
+  mapAttrsFrom_handle orc σ tobj src a h hs evs src hall h0 (Or.inl hex)
+
+open EzdxfVerif.XrefOv in
+/-- names: a chain whose name statements all read the SOURCE entity computes, for every attribute, the value of its last write -/
+theorem map_names_last_write (nm : Nat → Str → Str) (tname : Nat → Str) (evs : List MapEv) (src : Names) (a : Nat)
+    (hs : SrcOnly evs) :
+    mapNames nm tname evs src a = match lastN nm tname src a evs with | some v => v | none => src a :=
+  mapNamesFrom_last nm tname src a evs src hs
+
+open EzdxfVerif.XrefOv in
+/-- idempotence: a chain that reads only the source may visit the same copy twice without changing the result -/
+theorem second_pass_idempotent (nm : Nat → Str → Str) (tname : Nat → Str) (evs : List MapEv) (src : Names) (hs : SrcOnly evs) :
+    mapNamesTwice nm tname evs src = mapNames nm tname evs src := by
+  funext a
+  unfold mapNamesTwice
+  rw [mapNamesFrom_last nm tname src a evs _ hs, map_names_last_write nm tname evs src a hs]
+  cases lastN nm tname src a evs <;> rfl
+
+/-- the chain "A" ↦ "$0$A" ↦ "$0$$0$A" of a source that already holds both names -/
+def chainMap (_ : Nat) (s : Str) : Str := if s = [65] then [36, 48, 36, 65] else if s = [36, 48, 36, 65] then [36, 48, 36, 36, 48, 36, 65] else s
+
+open EzdxfVerif.XrefOv in
+/-- … and a statement that reads the CLONE is not idempotent: visited twice, the reference to "A" becomes a reference to the copy of
+    the source's OTHER entry "$0$A" (the defect fixed by 1a82fa447 for TEXT / MTEXT / XDATA inside blocks; seeded change C17-m2 for
+    INSERT).  With `registered_types_write_no_source` (no second visit) one pass is what the code performs. -/
+theorem clone_read_twice_differs :
+    mapNamesTwice chainMap (fun _ => []) [⟨7, .name 6, false, .always⟩] (fun a => if a = 7 then some [65] else none) 7
+        = some [36, 48, 36, 36, 48, 36, 65] ∧
+      mapNames chainMap (fun _ => []) [⟨7, .name 6, false, .always⟩] (fun a => if a = 7 then some [65] else none) 7
+        = some [36, 48, 36, 65] ∧
+      mapNamesTwice chainMap (fun _ => []) [⟨7, .name 6, true, .always⟩] (fun a => if a = 7 then some [65] else none) 7
+        = some [36, 48, 36, 65] := by decide
+
+open EzdxfVerif.XrefOv in
+/-- every name a registered, copyable entity type maps is handed to the registry by its `register_resources` chain (so the table
+    entry is transferred and the name map has the key), documented exceptions apart -/
+theorem mapped_names_are_registered (r : Row) (hr : r ∈ XrefOv.rows) (hc : r.copyable = true) (e : MapEv) (he : e ∈ r.maps)
+    (k : Nat) (hk : e.via = .name k) (hx : e.attr ∉ r.nameExceptions) (src : Names) (s : Str) (hs : src e.attr = some s) :
+    ∃ k', (k', s) ∈ registeredNames r.regs src ∧ (k' = k ∨ k' = 13 ∨ k' = 0) := by
+  have hwf := row_wf_of_mem r hr
+  simp only [Row.wf, hc, Bool.not_true, Bool.false_or, Bool.and_eq_true] at hwf
+  have hn := hwf.1.1.2
+  simp only [Row.namesRegistered, List.all_eq_true] at hn
+  have := hn e he
+  rw [hk] at this
+  simp only [Bool.or_eq_true, List.any_eq_true, List.contains_iff_mem, decide_eq_true_eq] at this
+  rcases this with ⟨g, hg, hga, hgk⟩ | h
+  · refine ⟨g.2, ?_, hgk⟩
+    simp only [registeredNames, List.mem_filterMap]
+    exact ⟨g, hg, by rw [hga, hs]; rfl⟩
+  · exact absurd h hx
+
+/-- the version gates in front of the name based (R12) handling of DIMSTYLE-override resources, translated from the `if` tests of
+    Dimension / Leader `.register_resources` / `.map_resources`: it is performed exactly when the SOURCE document is DXF R12,
+    whatever the version of the target (versions as ordinals 0 = R12 … 6 = R2018).  Seeded change C17-m3 (an extra test of the
+    target version) re-opens this proof. -/
+theorem r12_override_gate :
+    ∀ s < 7, ∀ t < 7,
+      XrefOverrides.dimensionMapsOverrideNames s t = decide (s = 0) ∧
+      XrefOverrides.dimensionRegistersOverrideNames s t = decide (s = 0) ∧
+      XrefOverrides.leaderMapsOverrideNames s t = decide (s = 0) ∧
+      XrefOverrides.leaderRegistersOverrideNames s t = decide (s = 0) := by decide
+
+-- the hypotheses of `registered_types_transfer_closed` are satisfiable: the first row of the table (3DFACE: material handle 0 is a
+-- declared, non-exceptional handle attribute) with the F14 transfer
+example : ∃ r ∈ XrefOv.rows, r.copyable = true ∧ 0 ∈ r.ptrAttrs ∧ 0 ∉ r.ptrExceptions :=
+  ⟨XrefOv.rows[0]'(by decide), List.getElem_mem _, by decide, by decide, by decide⟩
+-- non-vacuity: LINE is a registered type whose material handle is closed by a `get_handle` statement; rows exist that use every via
+#guard (XrefOv.rows.filter (fun r => r.cls = "LINE")).map (fun r => (r.copyable, r.ptrAttrs.length, decide ((r.ptrAttrs.filter (XrefOv.covered r.maps)).length ≥ 3))) = [(true, 3, true)]
+#guard XrefOv.rows.length ≥ 90 ∧ (XrefOv.rows.filter (·.copyable)).length ≥ 85
+#guard (XrefOv.rows.any fun r => r.maps.any fun e => e.via = .existingOpt) ∧ (XrefOv.rows.any fun r => r.maps.any fun e => e.via = .copyref)
+-- a row that lacks the mapping statement is NOT well-formed (the predicate is not trivially true); a statement that runs only when
+-- the attribute is absent does not cover it; an if/else pair on an undecided test does
+#guard XrefOv.covered [⟨0, .discard, true, .ifAbsent⟩] 0 = false
+#guard XrefOv.covered [⟨0, .copyref, true, .unk 3 true⟩, ⟨0, .discard, true, .unk 3 false⟩] 0 = true
+#guard XrefOv.covered [⟨0, .copyref, true, .unk 3 true⟩, ⟨0, .discard, true, .unk 4 false⟩] 0 = false
+#guard (XrefOv.Row.wf { cls := "X", copyable := true, ptrAttrs := [0], nameAttrs := [], maps := [], regs := [], writesSource := false,
+                         secondMapping := false, ptrExceptions := [], nameExceptions := [] }) = false
+#guard (XrefOv.Row.wf { cls := "X", copyable := true, ptrAttrs := [], nameAttrs := [(3, 4)], maps := [⟨3, .name 4, true, .always⟩], regs := [],
+                         writesSource := false, secondMapping := false, ptrExceptions := [], nameExceptions := [] }) = false
+#guard (XrefOv.Row.wf { cls := "X", copyable := true, ptrAttrs := [], nameAttrs := [], maps := [], regs := [], writesSource := true,
+                         secondMapping := false, ptrExceptions := [], nameExceptions := [] }) = false
 
 end EzdxfVerif.Props.C17
